@@ -1,6 +1,7 @@
 import ParryModel.Proto
 import ParryModel.C07.Link
 import ParryModel.C08.Driver
+import ParryModel.C07.Driver2
 /-!
 C07 protocol handler.  `bf_point`: a QBVH history (as in C08 `hist`) followed by a point; the real
 `Qbvh::traverse_best_first` runs with a point-distance visitor (lane weight = squared distance to the lane box, leaf
@@ -90,7 +91,12 @@ def compOracle (fn : String) (out : List String) : String :=
       let tie : Option Float := match qual with
         | ["tie", "v", x] => FloatIO.ofHex? x
         | _ => none
-      if fn == "composite_aabb" then
+      -- `exact`: every input coordinate is a small dyadic rational and no rounding occurs in any bounding-box computation
+      -- (the harness checks the arguments): a touching configuration is then exactly touching for the code as well, the
+      -- closed-box pruning tests must keep the touching part, and the composite answer must be the reduction of the
+      -- per-part answers WITHOUT the boundary allowances (`lim`, `tie`) that absorb rounding in general position
+      let exact := rest.any (· == ["exact"])
+      if fn == "composite_aabb" || fn == "composite2_aabb" then
         match a, b with
         | ["sup", _], ["sup", n] => if n == "0" then "pass" else s!"fail overlapping-elements-not-reported {n}"
         | ["ids", x], ["ids", y] =>
@@ -115,14 +121,25 @@ def compOracle (fn : String) (out : List String) : String :=
         let isTie := match tie with
           | some t => closeF t 0.0
           | none => false
-        let isRayOrCast := fn == "composite_ray" || fn == "composite2_ray" || fn == "composite_cast" || fn == "composite2_cast"
+        let isNl := fn == "composite_nlcast" || fn == "composite2_nlcast"
+        let isRayOrCast := fn == "composite_ray" || fn == "composite2_ray" || fn == "composite_cast" || fn == "composite2_cast" || isNl
+        -- rays and casts divide by direction components / iterate: their boundary allowances stay
+        let strict := exact && !isRayOrCast
+        let lim := if strict then none else lim
         -- times of impact of the GJK-based per-part casts are accurate to ~1e-5 relative on extreme aspect ratios
-        let tol : Rat := if fn == "composite_cast" || fn == "composite2_cast" then 1 / 10000 else tolC
+        -- composite against composite (`pair`): penetration depths (EPA) and distances of the pairs are reproduced through two
+        -- levels of frame changes; they agree to ~1e-5
+        let tol : Rat := if fn == "composite_cast" || fn == "composite2_cast" || isNl || rest.any (· == ["pair"]) then 1 / 10000 else tolC
         let probs := (A.zip B).filterMap (fun (x, y) => cmpItem lim x y tol)
         match probs.filter (fun w => !(isRayOrCast && w.startsWith "tie")) with
         | [] => if probs.isEmpty then "pass" else "skip tie start-on-surface"
         | why :: _ =>
-          if isTie && (fn == "composite_it" || fn == "composite_point" || fn == "composite2_it" || fn == "composite2_point")
+          -- the composite misses the earliest part AND the real ball-vs-ball cast the visitor prunes that part's leaf with
+          -- reports no impact by then: the pruning primitive is not conservative (root cause outside the traversal)
+          -- a cast whose earliest pair only grazes (the boxes of the two parts overlap for a single instant): a tie, not judged
+          if rest.any (· == ["graze"]) then "skip tie grazing-impact" else
+          if isNl && rest.any (· == ["primmiss"]) then s!"fail pruning-primitive-missed-impact {why}" else
+          if isTie && !strict && (fn == "composite_it" || fn == "composite_point" || fn == "composite2_it" || fn == "composite2_point")
               && why.startsWith "verdict-differs" then "skip tie"
           else s!"fail {why}"
     | _ => "fail unparsable-output"
@@ -168,7 +185,7 @@ def handler (fn : String) : Option Handler :=
                 else s!"fail cost-not-minimal got={C} min={m}"
           | "PANIC" :: _ => "fail panic"
           | _ => "fail unparsable-output" }
-  | _ => none
+  | _ => handler2 fn
 where
   pfloatTokC (t : String) : Option Float := if t = "nan" then some (0.0 / 0.0) else FloatIO.ofHex? t
 
